@@ -277,6 +277,16 @@ def r4(prog, sl, rep):
             how = 'loop'
             in_loop = [c for c in f.calls if c.name == 'std::vec::Vec::<T, A>::push' and f.in_loop(c.bb)]
             ok = len(in_loop) == 1
+            if ok:
+                # ... on EVERY iteration, and the loop runs to exhaustion: no `continue` around the push, no `break` /
+                # `return` out of the body (an empty alternative is an alternative)
+                pb = in_loop[0].bb
+                Ls = [L for L in E.loops(f) if pb in L.body]
+                L = min(Ls, key=lambda l: len(l.body)) if Ls else None
+                each = L is not None and all(f.dominates(pb, l) or pb == l for l in L.latches) and getattr(L, 'exhaust', None) is not None \
+                    and {b for b in L.exit_bb if f.blocks[b]['t']['t'] != 'unreachable'} <= {L.exhaust[1]}
+                rep.check(each, 'R4', 'build/alternatives-each', '%s:%d' % (f.file, f.line), 'the loop appends one Or per remaining group, for every group',
+                          'build() does not append an Or for every remaining group (conditional push / early exit): an empty alternative is lost')
         elif same and elem[0] == 'param' and f.kind == 'Closure':
             # closure handed to Iterator::map whose result is collected
             parent = prog.fns.get(f.parent)
@@ -342,3 +352,641 @@ def fd_effects(prog, sl, fn):
     must = [strip(e.path) for e in E.expand(fn, 'must') if e.kind == 'RAWFD']
     may = [strip(e.path) for e in E.expand(fn, 'may') if e.kind == 'RAWFD']
     return must, may
+
+
+# ---- R6: the public builders / constructors carry exactly what they were given -------------------------------
+# Stated on a *mutation summary* of each method: every change of state reachable from the receiver, found as
+#   ACC:PUSH / ACC:INSERT / ACC:MUT   container calls (interprocedural MUST / MAY effects, arguments substituted into the
+#                                     method's own terms, loops and iterator pipelines as FORALL)
+#   extend                            `Extend::extend(recv, iter)` in the method itself, its elements read with the
+#                                     iterator algebra
+#   assign                            a store to a field place rooted at the receiver
+# An adder appends exactly one element built from its argument (plural adders: one per element of the argument, every
+# element, in order), a setter stores its argument unconditionally, build() hands out every accumulated field.
+LAUNCH = 'libcnb_data::launch::'
+CONVERSIONS = ('std::convert::Into::into', 'std::convert::From::from', 'std::convert::AsRef::as_ref', 'std::string::ToString::to_string',
+               'std::borrow::ToOwned::to_owned', 'std::clone::Clone::clone', 'std::string::String::from', 'std::borrow::Borrow::borrow',
+               'std::ops::Deref::deref', 'std::str::<impl str>::to_string', 'std::str::<impl str>::to_owned')
+import re as _re
+_CONTAINER = _re.compile(r'^(std::vec::Vec|std::collections::(?:hash_map::|btree_map::|vec_deque::)?(?:HashMap|BTreeMap|VecDeque|HashSet|BTreeSet)|toml::map::Map|indexmap::IndexMap|(?:std|core)::slice)::<')
+READONLY = {'len', 'is_empty', 'iter', 'as_slice', 'first', 'last', 'get', 'contains', 'capacity', 'new', 'with_capacity', 'clone',
+            'to_vec', 'as_ptr', 'binary_search', 'starts_with', 'ends_with', 'join', 'concat', 'contains_key', 'keys', 'values',
+            'reserve', 'reserve_exact', 'shrink_to_fit', 'with_capacity_and_hasher', 'with_hasher', 'default', 'into_iter', 'is_sorted',
+            'windows', 'chunks', 'split_first', 'split_last', 'into_boxed_slice', 'from_iter', 'into_vec'}
+EMPTY_CTORS = ('std::vec::Vec::<T>::new', 'std::default::Default::default', '<std::vec::Vec<T> as std::default::Default>::default',
+               'std::collections::HashMap::<K, V>::new', 'std::collections::HashMap::<K, V, S>::default', 'toml::map::Map::<K, V>::new',
+               'toml::map::Map::<std::string::String, toml::Value>::new', 'std::vec::Vec::<T>::with_capacity',
+               'std::collections::HashMap::<K, V>::with_capacity', '<toml::map::Map<K, V> as std::default::Default>::default')
+
+
+def peel(v):
+    """v without value-preserving conversions (`x.into()`, `String::from(x)`, `x.as_ref()`, clones) and success wrappers"""
+    while True:
+        v = strip(v)
+        if v[0] == 'call' and v[1] in CONVERSIONS and len(v[2]) == 1:
+            v = v[2][0]
+        elif v[0] == 'call' and v[2] and len(v[2]) == 1 and (v[1].endswith(('>::from', '>::into', '>::as_ref', '>::to_string', '>::to_owned', '>::clone',
+                                                                           '::as_bytes', '::as_str', '::into_bytes', '::into_string', '::as_slice'))):
+            v = v[2][0]
+        else:
+            return v
+
+
+def fpath(v):
+    """(root, [field names from the root]) of a field projection chain"""
+    names = []
+    v = strip(v)
+    while v[0] == 'field':
+        names.append(v[2])
+        v = strip(v[1])
+    return v, names[::-1]
+
+
+def is_param(v, fn, idx):
+    v = peel(v)
+    return v[0] == 'param' and v[1] == fn.path and v[2] == idx
+
+
+def rooted_at_self(v, fn):
+    r, names = fpath(v)
+    return r[0] == 'param' and r[1] == fn.path and r[2] == 0 and bool(names)
+
+
+def is_empty_value(v):
+    v = strip(v)
+    if v[0] == 'array' and not v[1]:
+        return True
+    if v[0] == 'concat':
+        return False
+    return v[0] == 'call' and (v[1] in EMPTY_CTORS or (v[1].endswith(('::new', '::default')) and not v[2]))
+
+
+def _mut_kind(name):
+    last = name.split('::')[-1]
+    if last in READONLY:
+        return None
+    if last == 'push' and 'Vec' in name:
+        return 'ACC:PUSH'
+    if last == 'insert' and 'Map' in name:
+        return 'ACC:INSERT'
+    return 'ACC:MUT'
+
+
+def _target_of(sl, fn, pl):
+    """symbolic place a store `pl = ..` writes to: the base local's referent plus the field projections"""
+    base = strip(sl.local(fn, pl[0]))
+    v = base
+    for p in pl[1:]:
+        if p == '*':
+            continue
+        if p.startswith('.'):
+            v = ('field', v, p[1:])
+        else:
+            v = ('field', v, p)
+    return v
+
+
+class Summary:
+    """mutation summary of one method (see above)"""
+
+    def __init__(self, prog, sl, fn):
+        self.fn = fn
+        vocab = {}
+        fns = dict(prog.reach([fn]))
+        fns[fn.path] = fn
+        for g in fns.values():
+            for c in g.calls:
+                for n in (c.res, c.decl):
+                    if n and _CONTAINER.match(n):
+                        k = _mut_kind(n)
+                        if k:
+                            vocab[n] = (k, 0)
+        E = Effects(prog, sl, vocab=vocab)
+        self.E = E
+        self.must = [e for e in E.expand(fn, 'must') if e.kind.startswith('ACC:')]
+        self.may = [e for e in E.expand(fn, 'may') if e.kind.startswith('ACC:')]
+        self.extends = []
+        self.assigns = []
+        rets = fn.return_blocks()
+        for c in fn.calls:
+            if not c.indirect and c.decl == 'std::iter::Extend::extend' and len(c.args) == 2:
+                self.extends.append((sl.operand(fn, c.args[0]), sl.operand(fn, c.args[1]), c, all(fn.dominates(c.bb, r) for r in rets)))
+        normal = fn.reachable(0)
+        for key, defs in fn.defs().items():
+            if not isinstance(key, tuple):
+                continue
+            for d in defs:
+                if d[1] not in normal:
+                    continue    # the copy of a store in an unwind (drop elaboration) block
+                tgt = _target_of(sl, fn, d[4])
+                if d[0] == 'stmt':
+                    val = sl._rvalue(fn, d[3], set(), 0, (d[1], d[2]))
+                elif d[0] == 'call':
+                    val = sl._call_value(fn, d[3], set(), 0)
+                else:
+                    val = ('unknown', d[0])
+                self.assigns.append((tgt, val, d[1]))
+        # stores made by helpers through a `&mut` parameter are not summarised: name them so the caller fails closed
+        self.helper_stores = []
+        for g in fns.values():
+            if g.path == fn.path or g.crate != fn.crate:
+                continue
+            for key, defs in g.defs().items():
+                if isinstance(key, tuple) and 1 <= key[0] <= g.argc and g.args[key[0] - 1].startswith('&mut '):
+                    self.helper_stores.append(g.path)
+
+    def on_self(self, evs):
+        return [e for e in evs if e.args and rooted_at_self(e.args[0], self.fn)]
+
+    def self_assigns(self):
+        return [a for a in self.assigns if rooted_at_self(a[0], self.fn)]
+
+    def self_extends(self):
+        return [x for x in self.extends if rooted_at_self(x[0], self.fn)]
+
+
+def _elem_of_param(v, fn, idx):
+    """v is `the current element` of iterating parameter idx"""
+    v = peel(v)
+    return v[0] == 'call' and v[1] == 'std::iter::Iterator::next' and len(v[2]) == 1 and is_param(v[2][0], fn, idx)
+
+
+def check_push(prog, sl, rep, fn, field, subject):
+    S = Summary(prog, sl, fn)
+    where = '%s:%d' % (fn.file, fn.line)
+    rep.analysed(fn)
+    mp = S.on_self(S.must)
+    ok = len(mp) == 1 and mp[0].kind == 'ACC:PUSH' and mp[0].forall is None and fpath(mp[0].args[0])[1][-1:] == [field]
+    why = 'no unconditional single push onto .%s' % field
+    if ok:
+        v = sl.inline_deep(mp[0].args[1])
+        ok = carries(v, fn, 1)
+        why = 'the pushed element is not the argument: %s' % _vs(v)
+    if ok:
+        other = [e for e in S.may if e.call is not mp[0].call] + S.self_assigns() + S.extends
+        ok = not other and not S.helper_stores
+        why = 'the accumulated state is also changed otherwise (%d other mutation(s))' % (len(other) + len(S.helper_stores))
+    rep.check(ok, 'R6', subject, where, 'appends exactly its argument at the back of .%s' % field, '%s: %s' % (fn.path.split('::')[-1], why))
+
+
+def carries(v, fn, idx):
+    """v is parameter idx itself (modulo conversions) or a record whose data fields are that parameter / fresh empties,
+    with no other computation on the way"""
+    v = peel(v)
+    if is_param(v, fn, idx):
+        return True
+    if v[0] == 'agg':
+        vals = [peel(x) for _, x in v[3]]
+        return any(is_param(x, fn, idx) for x in vals) and all(is_param(x, fn, idx) or is_empty_value(x) for x in vals)
+    return False
+
+
+def _vs(v):
+    from .lib.value import vstr
+    return vstr(v)[:120]
+
+
+def check_push_each(prog, sl, rep, fn, field, subject):
+    S = Summary(prog, sl, fn)
+    where = '%s:%d' % (fn.file, fn.line)
+    rep.analysed(fn)
+    mp = S.on_self(S.must)
+    ex = S.self_extends()
+    ok, why, how = False, 'no push onto .%s for every element of the argument' % field, None
+    if len(mp) == 1 and not S.extends:
+        e = mp[0]
+        how = 'loop'
+        ok = e.kind == 'ACC:PUSH' and e.forall is not None and is_param(e.forall, fn, 1) and fpath(e.args[0])[1][-1:] == [field]
+        if ok:
+            v = sl.inline_deep(e.args[1])
+            ok = _elem_of_param(v, fn, 1) or (peel(v)[0] == 'agg' and all(_elem_of_param(x, fn, 1) or is_empty_value(x) for _, x in peel(v)[3]))
+            why = 'the pushed element is not the current element of the argument: %s' % _vs(v)
+        other = [x for x in S.may if x.call is not e.call] + S.self_assigns()
+    elif len(ex) == 1 and len(S.extends) == 1 and not mp:
+        recv, itv, c, dom = ex[0]
+        how = 'extend'
+        al = iters.alts(sl, itv)
+        ok = dom and fpath(recv)[1][-1:] == [field] and len(al) == 1 and not al[0][2] and al[0][1] is not None and is_param(al[0][1], fn, 1)
+        if ok:
+            ok = _elem_of_param(sl.inline_deep(al[0][0]), fn, 1)
+            why = 'extended by something else than the elements of the argument: %s' % _vs(al[0][0])
+        elif len(al) == 1 and al[0][2]:
+            why = 'not every element of the argument is appended (%s)' % ('truncated' if al[0][2] == 'trunc' else 'filtered')
+        other = S.may + S.self_assigns()
+    else:
+        other = []
+    if ok:
+        ok = not other and not S.helper_stores
+        why = 'the accumulated state is also changed otherwise (%d other mutation(s))' % (len(other) + len(S.helper_stores))
+    rep.check(ok, 'R6', subject, where, 'appends every element of its argument, in order, to .%s (%s)' % (field, how), '%s: %s' % (fn.path.split('::')[-1], why))
+
+
+def check_set(prog, sl, rep, fn, field, subject, value_ok=None, sites=None):
+    """the field is unconditionally assigned the argument (value_ok(v) overrides `is parameter 1`)"""
+    S = Summary(prog, sl, fn)
+    where = '%s:%d' % (fn.file, fn.line)
+    rep.analysed(fn)
+    asg = S.self_assigns()
+    ends = sites if sites is not None else fn.return_blocks()
+    ok = len(asg) == 1 and fpath(asg[0][0])[1][-1:] == [field]
+    why = '.%s is not assigned exactly once' % field
+    if ok:
+        tgt, val, bb = asg[0]
+        ok = bool(ends) and all(fn.dominates(bb, r) for r in ends)
+        why = '.%s is assigned only on some paths' % field
+        if ok:
+            ok = value_ok(val) if value_ok else is_param(val, fn, 1)
+            why = '.%s is assigned %s, not the argument' % (field, _vs(val))
+    if ok:
+        other = S.may + S.extends
+        ok = not other and not S.helper_stores
+        why = 'the state is also changed otherwise (%d other mutation(s))' % (len(other) + len(S.helper_stores))
+    rep.check(ok, 'R6', subject, where, '.%s := argument, on every path' % field, '%s: %s' % (fn.path.split('::')[-1], why))
+
+
+def check_snapshot(prog, sl, rep, fn, state_adt, subject):
+    """build(): every field of the returned state is the accumulated field of the same name"""
+    where = '%s:%d' % (fn.file, fn.line)
+    rep.analysed(fn)
+    ret = sl.inline_deep(sl.local(fn, 0))
+    bad = []
+    parents = set()
+    for f in _fields(prog, state_adt):
+        fv = peel(sl._field(strip(ret), f['name']))
+        r, names = fpath(fv)
+        if not (r[0] == 'param' and r[1] == fn.path and r[2] == 0 and names[-1:] == [f['name']]):
+            bad.append('%s <- %s' % (f['name'], _vs(fv)))
+        parents.add(tuple(names[:-1]))
+    S = Summary(prog, sl, fn)
+    touched = len(S.may) + len(S.assigns) + len(S.extends) + len(S.helper_stores)
+    if touched:
+        bad.append('%d container mutation(s) / store(s) between the accumulated state and the returned value' % touched)
+    ok = not bad and len(parents) == 1 and bool(_fields(prog, state_adt))
+    rep.check(ok, 'R6', subject, where, 'build() returns every accumulated field', 'build() does not hand out the accumulated state: %s' % (bad or sorted(parents)))
+
+
+def _single_collect_of(sl, v, fn, idx):
+    """v collects every element of parameter idx, unfiltered: the element value (in terms of the current element) or None"""
+    al = iters.alts(sl, v)
+    if len(al) == 1 and not al[0][2] and al[0][1] is not None and is_param(al[0][1], fn, idx):
+        return al[0][0]
+    return None
+
+
+BUILDER_METHODS = {
+    LAUNCH + 'LaunchBuilder': (LAUNCH + 'Launch', {
+        'new': ('init',), 'build': ('snapshot',),
+        'process': ('push', 'processes'), 'processes': ('push_each', 'processes'),
+        'label': ('push', 'labels'), 'labels': ('push_each', 'labels'),
+        'slice': ('push', 'slices'), 'slices': ('push_each', 'slices')}),
+    LAUNCH + 'ProcessBuilder': (LAUNCH + 'Process', {
+        'new': ('ctor',), 'build': ('snapshot',),
+        'arg': ('push', 'args'), 'args': ('push_each', 'args'),
+        'default': ('set', 'default'), 'working_directory': ('set', 'working_directory')}),
+    BUILDER: (None, {
+        'new': ('init',), 'or': ('r4',), 'build': ('r4',),
+        'provides': ('push', 'current_provides'), 'requires': ('push', 'current_requires')}),
+}
+
+
+def r6(prog, sl, rep):
+    n = 0
+    for b, (state, methods) in BUILDER_METHODS.items():
+        short = b.split('::')[-1]
+        found = {}
+        for p_, f in prog.fns.items():
+            if p_.startswith(b + '::') and '::' not in p_[len(b) + 2:] and f.kind != 'Closure':
+                found[p_[len(b) + 2:]] = f
+        for name, f in sorted(found.items()):
+            spec = methods.get(name)
+            subj = '%s/%s' % (short, name)
+            if spec is None:
+                # a method of a builder that is not modelled may change the accumulated state in any way
+                if f.vis == 'pub' or (f.args and f.args[0].startswith('&mut ')):
+                    rep.unproven('R6', subj, '%s:%d' % (f.file, f.line), 'builder method without a model: its effect on the accumulated state is not decided')
+                continue
+            n += 1
+            if spec[0] == 'push':
+                check_push(prog, sl, rep, f, spec[1], subj)
+            elif spec[0] == 'push_each':
+                check_push_each(prog, sl, rep, f, spec[1], subj)
+            elif spec[0] == 'set':
+                check_set(prog, sl, rep, f, spec[1], subj)
+            elif spec[0] == 'snapshot':
+                check_snapshot(prog, sl, rep, f, state, subj)
+            elif spec[0] == 'init':
+                check_init(prog, sl, rep, f, b, subj)
+            elif spec[0] == 'ctor' and short == 'ProcessBuilder':
+                check_process_new(prog, sl, rep, f, subj)
+        for name in methods:
+            if name not in found:
+                rep.unproven('R6', '%s/%s' % (short, name), '-', 'builder method not found')
+    rep.check(n >= 19, 'R6', 'floor', '-', '%d builder methods modelled' % n, 'only %d builder methods found (19 were confirmed by hand)' % n)
+    check_data_ctors(prog, sl, rep)
+
+
+def check_init(prog, sl, rep, fn, builder, subject):
+    """new(): the derived Default of the builder (every list empty) — or an explicit literal of empty fields"""
+    where = '%s:%d' % (fn.file, fn.line)
+    rep.analysed(fn)
+    v = peel(sl.local(fn, 0))
+    ok = v[0] == 'call' and v[1] in ('<%s as std::default::Default>::default' % builder, 'std::default::Default::default')
+    if ok and v[1] in prog.fns:
+        # a hand-written Default impl: must itself be all-empty
+        dv = peel(sl.inline_deep(v))
+        ok = dv[0] == 'agg' and all(_all_empty(sl, x) for _, x in dv[3])
+    elif not ok and v[0] == 'agg':
+        ok = all(_all_empty(sl, x) for _, x in v[3])
+    rep.check(ok, 'R6', subject, where, 'a new builder is empty', 'a new builder does not start from the empty state: %s' % _vs(v))
+
+
+def _all_empty(sl, v):
+    v = peel(sl.inline_deep(v))
+    if is_empty_value(v):
+        return True
+    return v[0] == 'agg' and all(_all_empty(sl, x) for _, x in v[3])
+
+
+def check_process_new(prog, sl, rep, fn, subject):
+    where = '%s:%d' % (fn.file, fn.line)
+    rep.analysed(fn)
+    ret = peel(sl.inline_deep(sl.local(fn, 0)))
+    pv = peel(ret[3][0][1]) if ret[0] == 'agg' and len(ret[3]) == 1 else ret
+    bad = []
+    if pv[0] != 'agg' or pv[1] != LAUNCH + 'Process':
+        bad.append('no Process literal: %s' % _vs(pv))
+    else:
+        fl = dict(pv[3])
+        if not is_param(fl.get('type', ('unknown',)), fn, 0):
+            bad.append('type <- %s' % _vs(fl.get('type')))
+        el = _single_collect_of(sl, fl.get('command', ('unknown',)), fn, 1)
+        if el is None or not _elem_of_param(sl.inline_deep(el), fn, 1):
+            bad.append('command is not every element of the argument, in order: %s' % _vs(fl.get('command')))
+        if not is_empty_value(fl.get('args', ('unknown',))):
+            bad.append('args <- %s' % _vs(fl.get('args')))
+        if strip(fl.get('default', ('unknown',))) != ('const', False):
+            bad.append('default <- %s' % _vs(fl.get('default')))
+        wd = strip(fl.get('working_directory', ('unknown',)))
+        if not (wd[0] == 'agg' and wd[2] == 'App'):
+            bad.append('working_directory <- %s' % _vs(wd))
+    S = Summary(prog, sl, fn)
+    if S.may or S.extends or S.helper_stores:
+        bad.append('%d container mutation(s) on the way' % (len(S.may) + len(S.extends) + len(S.helper_stores)))
+    rep.check(not bad, 'R6', subject, where, 'new(type, command) = {type, every command element, no args, not default, app directory}',
+              'ProcessBuilder::new does not build the process it was given: %s' % bad)
+
+
+def check_data_ctors(prog, sl, rep):
+    """Provide::new / Require::new / From<S> for Require / Require::metadata / ExecDProgramOutput::new / From<A>"""
+    BP = 'libcnb_data::build_plan::'
+
+    def one(path_rx, subject, pred, ok_msg, own_mutation_check=False):
+        fs = prog.find(path_rx)
+        if len(fs) != 1:
+            rep.unproven('R6', subject, '-', 'constructor not found (%d candidates)' % len(fs))
+            return
+        f = fs[0]
+        rep.analysed(f)
+        v = peel(sl.inline_deep(sl.local(f, 0)))
+        bad = pred(f, v)
+        if not bad and not own_mutation_check:
+            S0 = Summary(prog, sl, f)
+            if S0.may or S0.extends or S0.assigns or S0.helper_stores:
+                bad = 'the value is modified after it was built (%d mutation(s))' % (len(S0.may) + len(S0.extends) + len(S0.assigns) + len(S0.helper_stores))
+        rep.check(not bad, 'R6', subject, '%s:%d' % (f.file, f.line), ok_msg, '%s does not carry its argument: %s' % (f.path, bad))
+
+    def provide(f, v):
+        if v[0] != 'agg' or v[1] != BP + 'Provide' or len(v[3]) != 1 or not is_param(v[3][0][1], f, 0):
+            return _vs(v)
+
+    def require(f, v):
+        if v[0] != 'agg' or v[1] != BP + 'Require':
+            return _vs(v)
+        fl = dict(v[3])
+        if not is_param(fl.get('name', ('unknown',)), f, 0) or not is_empty_value(fl.get('metadata', ('unknown',))):
+            return _vs(v)
+    one('^' + BP.replace('::', '::') + r'Provide::new$', 'Provide/new', provide, 'Provide::new(name) = {name}')
+    one('^' + BP + r'Require::new$', 'Require/new', require, 'Require::new(name) = {name, empty metadata}')
+    one(r'^<libcnb_data::build_plan::Require as std::convert::From<S>>::from$', 'Require/from', require, 'Require::from(name) = {name, empty metadata}')
+    # Require::metadata(m): on success the metadata IS the table m serialises to (not merged into / kept from earlier calls)
+    ms = prog.find('^' + BP + r'Require::metadata$')
+    if len(ms) != 1:
+        rep.unproven('R6', 'Require/metadata', '-', 'Require::metadata not found')
+    else:
+        f = ms[0]
+        E = Effects(prog, sl)
+
+        def table_of_arg(val):
+            val = strip(val)
+            if not (val[0] == 'field' and val[2] == '0'):
+                return False
+            b = strip(val[1])
+            if not (b[0] == 'variant' and b[2] == 'Table'):
+                return False
+            src = strip(sl.inline_deep(b[1]))
+            return src[0] == 'call' and src[1].endswith('Value::try_from') and len(src[2]) == 1 and is_param(src[2][0], f, 1)
+        check_set(prog, sl, rep, f, 'metadata', 'Require/metadata', value_ok=table_of_arg, sites=[s.bb for s in E.sites(f)])
+    # exec.d output
+    XD = 'libcnb_data::exec_d::ExecDProgramOutput'
+
+    def xd_new(f, v):
+        if v[0] != 'agg' or v[1] != XD or len(v[3]) != 1 or not is_param(v[3][0][1], f, 0):
+            return _vs(v)
+
+    def xd_from(f, v):
+        if v[0] != 'agg' or v[1] != XD or len(v[3]) != 1:
+            return _vs(v)
+        mv = v[3][0][1]
+
+        def pair_ok(k, x):
+            k, x = peel(sl.inline_deep(k)), peel(sl.inline_deep(x))
+            return k[0] == 'field' and x[0] == 'field' and (k[2], x[2]) == ('0', '1') and _elem_of_param(k[1], f, 0) and _elem_of_param(x[1], f, 0)
+        el = _single_collect_of(sl, mv, f, 0)
+        S = Summary(prog, sl, f)
+        if el is not None and (S.may or S.extends or S.assigns or S.helper_stores):
+            return 'the collected map is modified afterwards'
+        if el is not None:
+            t = peel(sl.inline_deep(el))
+            if t[0] == 'tuple' and len(t[1]) == 2 and pair_ok(t[1][0], t[1][1]):
+                return None
+            if _elem_of_param(t, f, 0):
+                return None
+            return 'collected entries are %s' % _vs(t)
+        # a map filled by a loop over the argument
+        ins = [e for e in S.must if e.kind == 'ACC:INSERT']
+        others = [e for e in S.may if not any(e.call is i.call for i in ins)]
+        base = strip(mv)
+        if base[0] == 'concat':
+            base = strip(base[1])
+        if len(ins) == 1 and not others and not S.extends and not S.helper_stores and is_empty_value(base) and ins[0].forall is not None and is_param(ins[0].forall, f, 0) \
+                and len(ins[0].args) == 3 and pair_ok(ins[0].args[1], ins[0].args[2]) and strip(ins[0].args[0])[0] == 'call' \
+                and strip(ins[0].args[0])[3] == base[3]:
+            return None
+        return 'entries are not every (key, value) of the argument: %s' % _vs(mv)
+    one('^' + XD + r'::new$', 'ExecDProgramOutput/new', xd_new, 'ExecDProgramOutput::new(map) = map')
+    one(r'^<libcnb_data::exec_d::ExecDProgramOutput as std::convert::From<A>>::from$', 'ExecDProgramOutput/from', xd_from,
+        'every (key, value) of the argument becomes an entry', own_mutation_check=True)
+    # package descriptor references: TryFrom<&str> parses exactly the given text, TryFrom<PathBuf> the text of the path
+    PD = 'libcnb_data::package_descriptor::'
+    n = 0
+    for f in prog.find(r'^<' + PD + r'PackageDescriptor(BuildpackReference|Dependency) as std::convert::TryFrom<.*>>::try_from$'):
+        n += 1
+        rep.analysed(f)
+        short = f.path.split(' as ')[0].split('::')[-1] + '/try_from<' + f.args[0].split('::')[-1] + '>'
+        v = peel(sl.mk_unwrap(sl.inline_deep(sl.local(f, 0)), 1))
+        why = None
+        if v[0] != 'agg' or len(v[3]) != 1 or not v[1].startswith(PD):
+            why = 'no reference literal on success: %s' % _vs(v)
+        else:
+            u = peel(v[3][0][1])
+            while u[0] == 'call' and u[1].endswith(('::into_owned', '::to_owned')) and len(u[2]) == 1:
+                u = peel(u[2][0])
+            if not (u[0] == 'call' and u[1].endswith('try_from') and len(u[2]) == 1):
+                why = 'uri <- %s' % _vs(u)
+            else:
+                x = peel(u[2][0])
+                while x[0] == 'call' and x[1] in ('std::path::Path::to_string_lossy', 'std::path::Path::to_str', 'std::ffi::OsStr::to_string_lossy', 'std::ffi::OsStr::to_str',
+                                                 'std::path::Path::display', 'std::path::PathBuf::into_os_string', 'std::ffi::OsString::into_string') and len(x[2]) == 1:
+                    x = peel(x[2][0])
+                if not is_param(x, f, 0):
+                    why = 'the parsed text is %s, not the argument' % _vs(x)
+        rep.check(why is None, 'R6', short, '%s:%d' % (f.file, f.line), 'parses exactly the given text', '%s: %s' % (f.path, why))
+    rep.check(n >= 3, 'R6', 'uri-ctors/floor', '-', '%d URI constructors' % n, 'only %d URI constructors found (3 were confirmed by hand)' % n)
+
+
+# ---- R1: value shapes that are not key tables ------------------------------------------------------------------
+NEWTYPES = {
+    'libcnb_data::exec_d::ExecDProgramOutput': 'the map of variables itself (a TOML table of key = "value" pairs)',
+    'libcnb_data::exec_d::ExecDProgramOutputKey': 'the key string',
+    'libcnb_data::launch::ProcessType': 'the process type string',
+}
+# the content must be of a kind that TOML writes as the expected value kind: a string-keyed map (table) / a string
+NEWTYPE_CONTENT = {
+    'libcnb_data::exec_d::ExecDProgramOutput': r'^(std::collections::(\w+::)?(HashMap|BTreeMap)|indexmap::(map::)?IndexMap|toml::map::Map)<(libcnb_data::exec_d::ExecDProgramOutputKey|std::string::String), ?std::string::String\b',
+    'libcnb_data::exec_d::ExecDProgramOutputKey': r'^std::string::String$',
+    'libcnb_data::launch::ProcessType': r'^std::string::String$',
+}
+
+
+def r1_shapes(prog, sl, rep):
+    """single-field wrapper types are written as their content (serde newtype / transparent), and a `serialize_with`
+    function writes the Display text of the field it is given, unmodified"""
+    from .lib import serde_schema as S
+    for t, what in NEWTYPES.items():
+        a = prog.adts.get(t)
+        where = '%s:%s' % (a['file'], a['line']) if a else '-'
+        fs = S._find(prog, r"Serialize for %s>::serialize$" % S._ty_rx(t))
+        if len(fs) != 1 or a is None:
+            rep.unproven('R1', 'newtype/' + t, where, 'Serialize impl not found')
+            continue
+        f = fs[0]
+        rep.analysed(f)
+        fields = _fields(prog, t)
+        sc = [c for c in f.calls if not c.indirect and c.decl and (c.decl.split('::')[-2:-1] == ['Serializer'] or c.decl.endswith(('Serialize::serialize', 'SerializeStruct::serialize_field', 'SerializeMap::serialize_entry')))]
+        ok = len(fields) == 1 and len(sc) == 1
+        why = 'written through %s' % [c.decl.split('::')[-1] for c in sc]
+        if ok and not _re.match(NEWTYPE_CONTENT[t], fields[0]['ty']):
+            ok = False
+            why = 'its content is a %s' % fields[0]['ty']
+            sc = []
+        if ok and sc:
+            c = sc[0]
+            last = c.decl.split('::')[-1]
+            if last == 'serialize_newtype_struct':
+                v = peel(sl.operand(f, c.args[2]))
+            elif last in ('serialize_str', 'collect_str'):
+                v = peel(sl.inline_deep(sl.operand(f, c.args[1])))
+            elif c.decl.endswith('Serialize::serialize'):
+                v = peel(sl.operand(f, c.args[0]))
+            else:
+                v = ('unknown', last)
+            r, names = fpath(v)
+            ok = r[0] == 'param' and r[2] == 0 and names == [fields[0]['name']] and bool(c.dest) and c.dest[0] == 0
+            why = '%s(%s)' % (last, _vs(v))
+        rep.check(ok, 'R1', 'newtype/' + t, where, '%s is written as %s' % (t.split('::')[-1], what),
+                  '%s is not written as its single content value (%s): an independent reader does not find %s' % (t.split('::')[-1], why, what))
+    # serialize_with functions
+    seen = set()
+    for w in prog.find(r"^<libcnb_data::.*::serialize::__SerializeWith.* as .*Serialize>::serialize$"):
+        for c in w.calls:
+            for g in prog.callee_fns(c):
+                if g.path in seen:
+                    continue
+                seen.add(g.path)
+                rep.analysed(g)
+                where = '%s:%d' % (g.file, g.line)
+                arg0 = peel(sl.operand(w, c.args[0])) if c.args else ('unknown',)
+                r, names = fpath(arg0)
+                wired = r[0] == 'param' and names[:1] == ['values']
+                E = Effects(prog, sl, vocab={n: ('SER', 1) for h in list(prog.reach([g]).values()) + [g] for cc in h.calls for n in (cc.decl,)
+                                             if n and n.split('::')[-2:-1] == ['Serializer']})
+                must = [e for e in E.expand(g, 'must') if e.kind == 'SER']
+                may = [e for e in E.expand(g, 'may') if e.kind == 'SER']
+                ok = wired and len(must) == 1 and len(may) == 1 and must[0].call.decl.endswith(('::serialize_str', '::collect_str'))
+                v = peel(sl.inline_deep(must[0].path)) if ok else None
+                ok = ok and is_param(v, g, 0)
+                rep.check(ok, 'R1', 'with/' + g.path.split('::')[-1], where, 'writes the text of the field, unmodified',
+                          '%s does not write the text of its field unmodified: %s' % (g.path.split('::')[-1], _vs(v) if v else [e.call.decl for e in may]))
+    rep.check(len(seen) >= 1, 'R1', 'with/floor', '-', '%d serialize_with function(s)' % len(seen), 'no serialize_with function found (1 was confirmed by hand)')
+
+
+def r2_readback(prog, sl, rep, types):
+    """a type libcnb also reads back accepts every key it writes, for the same field"""
+    from .lib import serde_schema as S
+    for t in types:
+        se, de = S.ser_struct(prog, sl, t), S.deser_struct(prog, sl, t)
+        if se is None or de is None or de['kind'] != 'struct' or se['kind'] != 'struct':
+            continue
+        a = prog.adts.get(t)
+        where = '%s:%s' % (a['file'], a['line']) if a else '-'
+        bad = []
+        for key, k in se['keys'].items():
+            dk = de['keys'].get(key)
+            if dk is None:
+                bad.append('%s is written but read as %s' % (key, sorted(x.key for x in de['keys'].values() if x.field == k.field) or 'nothing'))
+            elif k.field and dk.field and '{' not in k.field and k.field != dk.field:
+                bad.append('%s is written from .%s but read into .%s' % (key, k.field, dk.field))
+        rep.check(not bad, 'R2', 'readback/' + t, where, 'every written key is read back into the same field',
+                  '%s does not read back what it writes: %s' % (t.split('::')[-1], '; '.join(bad)))
+
+
+# ---- R5: exec.d payload ----------------------------------------------------------------------------------------
+def execd_payload(prog, sl, rep, fn):
+    """what reaches the fd-3 file: on every path exactly one complete write (write_all / write!) of
+    toml::to_string(<the argument>.into()), its result not dropped"""
+    from .lib.discard import result_fates, verdict
+    W = 'std::io::Write::'
+    vocab = {W + 'write_all': ('FDW:all', 0), W + 'write': ('FDW:partial', 0), W + 'write_vectored': ('FDW:partial', 0),
+             W + 'write_fmt': ('FDW:fmt', 0), W + 'write_all_vectored': ('FDW:all', 0)}
+    E = Effects(prog, sl, vocab=vocab)
+    must = [e for e in E.expand(fn, 'must') if e.kind.startswith('FDW:')]
+    may = [e for e in E.expand(fn, 'may') if e.kind.startswith('FDW:')]
+    where = '%s:%d' % (fn.file, fn.line)
+
+    def on_fd(e):
+        # (the descriptor may be opened by a private helper: look through it)
+        return any(x[0] == 'call' and x[1].endswith('from_raw_fd') for x in walk(sl.inline_deep(e.args[0]))) if e.args else False
+    ok = len(must) == 1 and len(may) == 1 and on_fd(must[0])
+    why = 'writes: always %s, possibly %s' % ([e.call.decl.split('::')[-1] for e in must], [e.call.decl.split('::')[-1] for e in may])
+    if ok:
+        e = must[0]
+        ok = e.kind in ('FDW:all', 'FDW:fmt')
+        why = '%s may write only a prefix of the document' % e.call.decl.split('::')[-1]
+    if ok:
+        dv = sl.inline_deep(e.args[1])
+        if e.kind == 'FDW:fmt':
+            dv0 = strip(dv)
+            dv = dv0[1][0] if dv0[0] == 'fmt' and len(dv0[1]) == 1 and isinstance(dv0[1][0], tuple) else ('unknown', 'formatted')
+        d = peel(dv)
+        ok = d[0] == 'call' and d[1] in ('toml::to_string', 'toml::to_string_pretty', 'toml::ser::to_string') and len(d[2]) == 1 and is_param(d[2][0], fn, 0)
+        why = 'the bytes written are %s, not toml::to_string(argument)' % _vs(dv)
+    if ok:
+        # the write's own result, and the result of every helper on the way up that hands a Result back, is propagated
+        # or unwrapped (a helper returning () has already dealt with it)
+        links = [l.call if hasattr(l, 'call') else l for l in e.chain] + [e.call]
+        fates = [verdict(result_fates(prog, c.fn, c)) for c in links
+                 if c is e.call or (c.dty or '').startswith(('std::result::Result<', 'std::io::Result<', 'std::option::Option<'))]
+        ok = all(v in ('ok', 'panics') for v in fates)
+        why = 'the result of the write is %s' % ' / '.join(fates)
+    rep.check(ok, 'R5', 'exec_d/payload', where, 'fd 3 receives one complete write of toml::to_string(output), failure not ignored',
+              'exec.d output is not one complete, checked write of the serialised argument: %s' % why)
